@@ -11,7 +11,8 @@ ACTIONS = ['load', 'forced', 'enforce', 'edit']
 SHARED = [('alpha', 'role:new_alpha', ('old_alpha', 'role:old_alpha'), None),
           ('beta', 'role:new_beta or role:x', ('beta', 'role:old_beta'), None),
           ('gamma', 'role:gamma', None, ['project']),
-          ('delta', 'role:delta', ('old_delta', 'role:delta'), None)]
+          ('delta', 'role:delta', ('old_delta', 'role:delta'), None),
+          ('eps', 'role:eps', ('old_eps', 'role:old_eps'), None, 'legacy')]
 
 
 def snapshot(objs):
@@ -19,6 +20,7 @@ def snapshot(objs):
     for o in objs:
         d = o.deprecated_rule
         out.append((o.name, o.check_str, str(o.check), id(o.check), o.scope_types and tuple(o.scope_types),
+                    o.deprecated_reason, o.deprecated_since, id(d),
                     d and (d.name, d.check_str, str(d.check), id(d.check), d.deprecated_reason, d.deprecated_since),
                     o.deprecated_for_removal, o.description))
     return out
@@ -63,7 +65,11 @@ def run_scenario(root, nenf, actions, seed):
         force = 0
         if act == 'edit':
             x['k'] += 1
-            x['fs'].write('policy.d', 'x.yaml', {'beta': 'role:edit%d_%d' % (idx, x['k'])}, 'yaml')
+            contents = [{'beta': 'role:edit%d_%d' % (idx, x['k'])},
+                        {'old_alpha': 'role:oldovr%d' % x['k'], 'old_delta': 'role:od'},
+                        {},
+                        {'alpha': 'role:newovr%d' % x['k']}]
+            x['fs'].write('policy.d', 'x.yaml', contents[(x['k'] + idx) % 4], 'yaml')
             x['fs'].sync()
             x['e'].load_rules()
         elif act == 'load':
@@ -82,6 +88,19 @@ def run_scenario(root, nenf, actions, seed):
                     {'kind': 'failing-input', 'suite': 'spec-c12',
                      'input': {'nenf': nenf, 'actions': [list(a) for a in actions]},
                      'expected': x['obs'][-1]['rules'], 'observed': o['rules']})
+            break
+        # ... and as a brand-new enforcer (same options, same files, same shared objects) loading exactly once
+        fe = policy.Enforcer(x['e'].conf)
+        fe.suppress_deprecation_warnings = True
+        fe.register_defaults(shared)
+        fe.load_rules()
+        fo = observe(fe)
+        if fo['rules'] != o['rules']:
+            viol = ('not-as-once', 'enforcer %d after %s: effective policy %r differs from a fresh enforcer loading the same '
+                    'files once: %r' % (idx, act, o['rules'], fo['rules']),
+                    {'kind': 'failing-input', 'suite': 'spec-c12',
+                     'input': {'nenf': nenf, 'actions': [list(a) for a in actions]},
+                     'expected': fo['rules'], 'observed': o['rules']})
             break
         x['steps'].append([x['fs'].wire(), force])
         x['obs'].append(o)
@@ -162,7 +181,7 @@ def run(run, binfo):
     run.rule = ('interleavings of {load, forced load, enforce, edit file} up to length %d over 1-2 enforcers (exhaustive, strided for '
                 'two enforcers in quick) and %d random interleavings of 4-12 actions over 1-3 enforcers, each enforcer with its own '
                 'files and enforce_new_defaults value, all registering the SAME list of RuleDefault/DeprecatedRule objects (renamed, '
-                'same-name and plain): effective policy after each non-edit action equals the previous one, deep attribute '
+                'same-name and plain): effective policy after each non-edit action equals the previous one and after every action equals that of a fresh enforcer loading once, deep attribute '
                 'snapshot (incl. object identities of the parsed checks) of the shared objects unchanged, and every enforcer\'s '
                 'state equals the pure model run on its own history alone. non-trivial = distinct interleavings' % (maxlen, nrand))
 
